@@ -55,6 +55,9 @@ def gen(rng, tier):
             if c["name"] in missing:
                 for r in missing[c["name"]]:
                     c["values"][r] = None
+            # pandas' nullable integer dtype (pd.NA) is a missing value like any other
+            if c["name"] in ("z", "n_trials") and rng.random() < 0.35:
+                c["type"] = "nint"
         cases.append({"formula": _formula(rng, na == "pass"), "frame": fr, "na": na, "missing": missing, "kind": na})
     return cases
 
